@@ -78,3 +78,34 @@ package logicalplan
 //@   at logicalplan.traverseBottomUp line "&node.LHS" assert[C09,C10] lhs-rewrites-land-in-the-plan: within($current, node)
 //@   at logicalplan.traverseBottomUp line "&node.RHS" assert[C09,C10] rhs-rewrites-land-in-the-plan: within($current, node)
 //@   loop 0 invariant node != nil && !isnil(transform)
+
+// ---- propagate_selectors.go (C09) ----------------------------------------------------------------
+// For an arithmetic operator with one-to-one matching on ALL labels (no on()/ignoring(..) list), two
+// series can only be paired if they agree on every label but the metric name. A matcher of one
+// operand on a label other than the name may therefore be added to the other operand: it removes
+// only series that have no partner. Nothing else is sound, so the code obligations are:
+//  - the rewrite is applied only under those premises (not to comparisons, not with on(), not with a
+//    label list, not to many-to-one / one-to-many);
+//  - each operand keeps every one of its own matchers, in order, and gains only matchers of the other
+//    operand that are not on the metric name.
+//@ func addMissingMatchers
+//@   requires nonnilM(matchers) && nonnilM(other)
+//@   assigns nothing
+//@   ghostvar src seqint = constseq(-1)
+//@   at line "result = append(result, m)" set src = store(src, len(result), rangeindex)
+//@   ensures[C09] own-matchers-kept-in-order: fresh(result) && len(result) >= len(matchers) && (forall i in 0..len(matchers) :: result[i] == matchers[i])
+//@   ensures[C09] added-matchers-come-from-the-other-operand-and-are-not-on-the-name: forall i in len(matchers)..len(result) ::
+//@       0 <= src[i] && src[i] < len(other) && result[i] == other[src[i]] && other[src[i]].Name != "__name__"
+//@   ensures[C09] every-matcher-of-the-other-operand-applied: forall j in 0..len(other) :: other[j].Name == "__name__" || inM(matchers, other[j]) || inM(result, other[j])
+//@   loop 0 invariant shape: fresh(result) && preexisting(matchers) && preexisting(other) && nonnilM(matchers) && nonnilM(other) && len(result) >= len(matchers) && nonnilM(result) && (forall i in 0..len(matchers) :: result[i] == matchers[i])
+//@   loop 0 invariant added-so-far: forall i in len(matchers)..len(result) :: 0 <= src[i] && src[i] <= rangeindex && result[i] == other[src[i]] && other[src[i]].Name != "__name__"
+//@   loop 0 invariant applied-so-far: forall j in 0..rangeindex+1 :: other[j].Name == "__name__" || inM(matchers, other[j]) || inM(result, other[j])
+//@ func propagateMatchers
+//@   requires binOp != nil
+//@   at logicalplan.addMissingMatchers #1 assert[C09] left-operand-gains-from-the-right: sameslice($matchers, lhSelector.LabelMatchers) && sameslice($matchers, lhMatchers) &&
+//@       sameslice($other, rhSelector.LabelMatchers) && sameslice($other, rhMatchers)
+//@   at logicalplan.addMissingMatchers #2 assert[C09] right-operand-gains-from-the-original-left: sameslice($matchers, rhMatchers) && sameslice($other, lhMatchers)
+//@ func (PropagateMatchersOptimizer).Optimize$1
+//@   requires expr != nil
+//@   at logicalplan.propagateMatchers assert[C09] only-arithmetic-one-to-one-on-all-labels: !$binOp.Op.IsComparisonOperator() &&
+//@       ($binOp.VectorMatching == nil || (!$binOp.VectorMatching.On && len($binOp.VectorMatching.MatchingLabels) == 0 && $binOp.VectorMatching.Card == parser.CardOneToOne))
